@@ -75,7 +75,7 @@ func LoadProg(dir string, overlay map[string][]byte) (*Prog, error) {
 	}
 	p := &Prog{Dir: dir, Pkgs: pkgs, byPath: map[string]*packages.Package{}, ssaPkg: map[string]*ssa.Package{}, fnOfDecl: map[*ast.FuncDecl]*ssa.Function{}}
 	p.Fset = pkgs[0].Fset
-	prog, spkgs := ssautil.AllPackages(pkgs, ssa.InstantiateGenerics)
+	prog, spkgs := ssautil.Packages(pkgs, ssa.InstantiateGenerics)
 	prog.Build()
 	p.SSA = prog
 	for i, pkg := range pkgs {
